@@ -27,7 +27,7 @@ func verifStubEncodeOption(e *msgpack.Encoder, v interface{}) error {
 	if err := e.EncodeString("size"); err != nil {
 		return err
 	}
-	if err := e.EncodeInt(int64(opt.Size)); err != nil {
+	if err := e.EncodeInt64(int64(opt.Size)); err != nil { // struct int fields are written as int64 (no compact ints)
 		return err
 	}
 	if err := e.EncodeString("chunk"); err != nil {
@@ -73,7 +73,7 @@ func verifCheckEnvelope(out []byte, tag string, data []byte, id string) {
 	}
 	sym.Assert(r.mapLen() == 2, "option map: size and chunk")
 	r.str("size", "key size")
-	sym.Assert(r.u8() == 7, "size = number of records")
+	sym.Assert(r.u8() == 0xd3 && r.uN(4) == 0 && r.uN(4) == 7, "size = number of records")
 	r.str("chunk", "key chunk")
 	r.str(id, "chunk id")
 	sym.Assert(r.p == len(out), "nothing follows the message")
